@@ -315,7 +315,11 @@ fn c14_case(b: &Batch, ri: usize, x: &DV, extra_byte: u8, st: &mut Stats, counti
             }
             // wrong passwords / keys
             if *kind == "file" {
-                for pw in ["", "correct horse batter", "correct horse battery ", " correct horse battery", "Correct horse battery", "correct horse battery\u{0}", "correct\u{a0}horse battery", "correct horse batterу"] {
+                for pw in ["", "correct horse batter", "correct horse battery ", " correct horse battery", "Correct horse battery", "correct horse battery\u{0}", "correct\u{a0}horse battery", "correct horse batterу",
+                    // what reading a password from a terminal or a file tends to add, and near misses a
+                    // normalising key derivation could conflate
+                    "correct horse battery\n", "correct horse battery\r\n", "correct horse battery\r", "\ncorrect horse battery", "correct horse battery\t", "correct  horse battery", "CORRECT HORSE BATTERY", "correct horse batteryy", "correcthorsebattery",
+                ] {
                     check_rejected(format!("password {:?}", pw), "wrong_password", good, pw, key, st)?;
                 }
             } else {
